@@ -253,13 +253,31 @@ impl<Octs: Composer> Opt<Octs> {
     where
         F: FnOnce(&mut Octs) -> Result<(), Octs::AppendError>,
     {
+        // The option is preceded by its code and length: four more octets.
+        let len = self.octets.as_ref().len();
         LongOptData::check_len(
-            self.octets
-                .as_ref()
-                .len()
+            len.saturating_add(4)
                 .saturating_add(usize::from(option_len)),
         )?;
 
+        if let Err(err) = self.append_raw_option(code, option_len, op) {
+            // Don’t leave half an option behind.
+            self.octets.truncate(len);
+            return Err(err);
+        }
+        Ok(())
+    }
+
+    /// Appends the code, length and data of an option.
+    fn append_raw_option<F>(
+        &mut self,
+        code: OptionCode,
+        option_len: u16,
+        op: F,
+    ) -> Result<(), BuildDataError>
+    where
+        F: FnOnce(&mut Octs) -> Result<(), Octs::AppendError>,
+    {
         code.compose(&mut self.octets)?;
         option_len.compose(&mut self.octets)?;
         op(&mut self.octets)?;
